@@ -7,6 +7,7 @@ package stack
 import (
 	"context"
 	"fmt"
+	"github.com/thushan/olla/internal/adapter/registry"
 	"io"
 	"log"
 	"log/slog"
@@ -309,6 +310,17 @@ func (s *Stack) RegisterModels(url string, names ...string) error {
 	ms := make([]*domain.ModelInfo, 0, len(names))
 	for _, n := range names {
 		ms = append(ms, &domain.ModelInfo{Name: n, LastSeen: time.Now()})
+	}
+	// as the discovery service does: with the endpoint (its type feeds the unified catalogue's
+	// platform / alias information) when the registry is the unified one
+	if u, ok := s.Registry.(*registry.UnifiedMemoryModelRegistry); ok {
+		if all, err := s.Repo.GetAll(context.Background()); err == nil {
+			for _, e := range all {
+				if e.URLString == url {
+					return u.RegisterModelsWithEndpoint(context.Background(), e, ms)
+				}
+			}
+		}
 	}
 	return s.Registry.RegisterModels(context.Background(), url, ms)
 }
